@@ -15,6 +15,7 @@ import (
 	spath "github.com/scionproto/scion/pkg/snet/path"
 
 	"example.com/scion-time/core/client"
+	"example.com/scion-time/net/scion"
 	"example.com/scion-time/net/udp"
 )
 
@@ -29,6 +30,10 @@ type Transport interface {
 	// Wrap frames an NTP payload as a datagram for the client; v selects deviations
 	// from the genuine framing (C05): "", "srcIA", "srcHost", "dstIA", "dstHost", "scmp".
 	Wrap(ntp []byte, m *Meta, v string) []byte
+	// WrapFwd frames a genuine response as the client's end host hands it to the
+	// client's socket: opt != nil is the data of the end-to-end option 253 the
+	// end-host forwarder appended (SCION only; the IP transport has no such thing).
+	WrapFwd(ntp []byte, m *Meta, opt []byte) []byte
 	Prev() client.VerifPrev
 	SetPrev(client.VerifPrev)
 	ResetIL()
@@ -52,12 +57,13 @@ func (t *ipT) Measure(ctx context.Context, n *Net) (MeasureResult, error) {
 		&net.UDPAddr{IP: na.Addr().AsSlice(), Port: int(na.Port())})
 	return MeasureResult{ts, off, err}, nil
 }
-func (t *ipT) Unwrap(b []byte) ([]byte, *Meta, error)    { return b, &Meta{}, nil }
-func (t *ipT) Wrap(ntp []byte, m *Meta, v string) []byte { return ntp }
-func (t *ipT) Prev() client.VerifPrev                    { return t.c.VerifPrev() }
-func (t *ipT) SetPrev(p client.VerifPrev)                { t.c.VerifSetPrev(p) }
-func (t *ipT) ResetIL()                                  { t.c.ResetInterleavedMode() }
-func (t *ipT) InIL() bool                                { return t.c.InInterleavedMode() }
+func (t *ipT) Unwrap(b []byte) ([]byte, *Meta, error)         { return b, &Meta{}, nil }
+func (t *ipT) Wrap(ntp []byte, m *Meta, v string) []byte      { return ntp }
+func (t *ipT) WrapFwd(ntp []byte, m *Meta, opt []byte) []byte { return ntp }
+func (t *ipT) Prev() client.VerifPrev                         { return t.c.VerifPrev() }
+func (t *ipT) SetPrev(p client.VerifPrev)                     { t.c.VerifSetPrev(p) }
+func (t *ipT) ResetIL()                                       { t.c.ResetInterleavedMode() }
+func (t *ipT) InIL() bool                                     { return t.c.InInterleavedMode() }
 
 // --------------------------------------------------------------------- SCION
 type scionT struct {
@@ -107,7 +113,11 @@ func (t *scionT) Unwrap(b []byte) ([]byte, *Meta, error) {
 	return append([]byte{}, udpl.Payload...), m, nil
 }
 
-func (t *scionT) Wrap(ntp []byte, m *Meta, v string) []byte {
+func (t *scionT) Wrap(ntp []byte, m *Meta, v string) []byte { return t.wrap(ntp, m, v, nil) }
+
+func (t *scionT) WrapFwd(ntp []byte, m *Meta, opt []byte) []byte { return t.wrap(ntp, m, "", opt) }
+
+func (t *scionT) wrap(ntp []byte, m *Meta, v string, fwdOpt []byte) []byte {
 	var scn slayers.SCION
 	scn.Version = 0
 	scn.FlowID = 1
@@ -146,6 +156,18 @@ func (t *scionT) Wrap(ntp []byte, m *Meta, v string) []byte {
 	scn.NextHdr = slayers.L4UDP
 	udpl := slayers.UDP{SrcPort: m.DstPort, DstPort: m.SrcPort}
 	udpl.SetNetworkLayerForChecksum(&scn)
+	if fwdOpt != nil {
+		// the end-host forwarder's timestamp travels in an end-to-end extension
+		// header between the SCION header and UDP (net/scion OptTypeTimestamp)
+		scn.NextHdr = slayers.End2EndClass
+		ext := slayers.EndToEndExtn{}
+		ext.NextHdr = slayers.L4UDP
+		ext.Options = []*slayers.EndToEndOption{{OptType: scion.OptTypeTimestamp, OptData: fwdOpt}}
+		if err := gopacket.SerializeLayers(buffer, opts, &scn, &ext, &udpl, gopacket.Payload(ntp)); err != nil {
+			panic(err)
+		}
+		return append([]byte{}, buffer.Bytes()...)
+	}
 	if err := gopacket.SerializeLayers(buffer, opts, &scn, &udpl, gopacket.Payload(ntp)); err != nil {
 		panic(err)
 	}
